@@ -5,6 +5,7 @@
 From FMP Require Import Base.Bytes Base.Lts Model.Events Model.Skeleton Model.Props Model.Writer Model.Receiver
      Model.Lifecycle Proofs.WriterProofs Proofs.ReceiverProofs Proofs.LifecycleProofs Proofs.CloseProofs
      Proofs.SkeletonProofs.
+From FMP Require Import Proofs.WriterProgress Proofs.WriterCancel Proofs.ReceiverQuiesce.
 Open Scope Z_scope.
 
 (* every wait of a call / notification has a stop or done arm: once the transport has stopped a blocked caller can
@@ -57,6 +58,26 @@ Proof. exact lifecycle_stop_irreversible. Qed.
 Theorem C10_generated_ok : skeleton_now = expected_skeleton.
 Proof. exact generated_ok. Qed.
 
+(* ---------- bounded completion after the transport has stopped ---------- *)
+(* every started call / notification that has not returned can return with its own steps only, within 3 steps (3 are
+   needed: three_self_steps_needed); a reply has no stop arm and relies on its context (writer_stopped_reply_stuck shows the
+   hypothesis cannot be dropped; with its context ended it returns: C08_cancelled_sender_returns) *)
+Theorem C10_stopped_sender_returns : forall ss ls st c s,
+    fresh_ok ss = true -> run (step expected_skeleton) (init ss) ls = Some st ->
+    find c (senders st) = Some s -> s_pc s <> PNew -> (forall r, s_pc s <> PRet r) ->
+    done_closed st = true -> stop_closed st = true -> s_kind s <> SReply ->
+    exists ls' st' s' r, (length ls' <= 3)%nat /\ forallb (self_label c) ls' = true /\
+       run (step expected_skeleton) st ls' = Some st' /\ find c (senders st') = Some s' /\ s_pc s' = PRet r.
+Proof. exact writer_stopped_sender_returns. Qed.
+(* the serving side: from any reachable stopped state the library's goroutines all finish on their own within
+   (handlers reporting their end) + 3 internal steps; only handler FUNCTIONS still running remain, with cancelled contexts *)
+Theorem C10_serving_side_quiesces : forall ls st,
+    run (rstep expected_skeleton) rinit ls = Some st -> stopped st = true ->
+    exists ls' st', (length ls' <= length (endings st) + 3)%nat /\ forallb internal ls' = true /\
+                    run (rstep expected_skeleton) st ls' = Some st' /\ quiet st' /\
+                    forall x, In x (handlers st') -> hd_pc x = HRun -> hd_ctx x = true.
+Proof. exact recv_can_quiesce_after_stop_cancelled. Qed.
+
 Print Assumptions C10_blocked_callers_released.
 Print Assumptions C10_ctx_releases.
 Print Assumptions C10_reply_needs_its_context.
@@ -64,3 +85,5 @@ Print Assumptions C10_close_wait_for_task_loop.
 Print Assumptions C10_close_wait_for_writer.
 Print Assumptions C10_close_idempotent.
 Print Assumptions C10_generated_ok.
+Print Assumptions C10_stopped_sender_returns.
+Print Assumptions C10_serving_side_quiesces.
